@@ -506,6 +506,41 @@ fn predicates(rep: &mut Report) {
     one!(DateTime<unit::Nanosecond>, "DateTime", [NULL, 1], true);
     one!(TimeDelta, "TimeDelta", [NULL, 1], true);
     one!(Time, "Time", [NULL, 1], true);
+    // into_cast::<T>() / T::inner_cast(x): the value re-wrapped in T's KIND of container (Casts.tla IntoKind):
+    // an Option kind absorbs the null (NaN -> None), a bare kind hands the value through
+    macro_rules! kind {
+        ($S:ty, $name:expr, [$($v:expr),*]) => {{
+            for v in [$($v),*] {
+                let Some(x) = <$S>::mk(v) else { continue };
+                rep.cells += 1;
+                let key = format!("into_cast|{}|v={}", $name, vname(v));
+                let isn = v == NULL || v == NEGNAN;
+                let r = catch(|| -> Result<(), String> {
+                    let o: Option<$S> = x.clone().into_cast::<Option<i32>>();
+                    if o.is_none() != isn { return Err(format!("into_cast::<Option<_>>() = {o:?}")); }
+                    if let Some(y) = o { if y.out() != x.out() { return Err("into_cast::<Option<_>>() changed the value".into()); } }
+                    let o2: Option<$S> = <Option<f64> as IsNone>::inner_cast(x.clone());
+                    if o2.is_none() != isn { return Err(format!("Option::inner_cast = {o2:?}")); }
+                    let b: $S = x.clone().into_cast::<f64>();
+                    if b.out() != x.out() { return Err("into_cast::<bare>() changed the value".into()); }
+                    let b2: $S = x.clone().into_cast::<i64>();
+                    if b2.out() != x.out() { return Err("into_cast::<i64>() changed the value".into()); }
+                    Ok(())
+                });
+                match r {
+                    Ok(Ok(())) => rep.ok("into_cast", 0.0),
+                    Ok(Err(d)) => rep.mismatch("into_cast", "into_cast", &key, $name, &d, &case),
+                    Err(p) => rep.mismatch("into_cast", "into_cast", &key, $name, &format!("panicked: {p}"), &case),
+                }
+            }
+        }};
+    }
+    kind!(f64, "f64", [NULL, NEGNAN, -1, 0, HALF, PINF, NINF]);
+    kind!(f32, "f32", [NULL, NEGNAN, -1, 0, HALF, PINF]);
+    kind!(i32, "i32", [-1, 0, 300]);
+    kind!(i64, "i64", [-1, 0, 300]);
+    kind!(u8, "u8", [0, 200]);
+    kind!(usize, "usize", [0, 300]);
     // vabs preserves nullness
     rep.cells += 1;
     let r = catch(|| {
